@@ -32,13 +32,13 @@ CLAIMS = {
          "One layer is the lattice join keep < file < tree with the payload preserved and the filter observing every non-Err entry exactly once (also entries already discarded upstream); two stacked real FilterEntry layers; Verus lemmas lift the one-layer contract to any stack and show order independence.",
          "The `filtrate` loop is bounded (<= 3 items); Not is exercised with the empty program only (regex is_match stubbed, unreachable); walkdir assumed."),
  "C17": ("proof", "Kani harness-stated contracts on span arithmetic, parse-error span, un-rooting",
-         "Partial: the parse-error span lies on character boundaries inside the expression (fragment of <= 2 arbitrary characters), span union and un-rooting arithmetic stay inside the expression and delimit the right text, rule-error and capture spans are reported as stored; partition's pop_expression_bytes (hoisted from the function body) removes exactly the offset in BYTES (bounded: <= 4 bytes). The REAL Glob::captures numbers exactly the capturing top-level tokens from 1 in expression order, each with the span stored for its own token (bounded: 3 leaf tokens). Token spans produced by pori and the rest of partition's body (offset sum, span rewrite closure, the owned / borrowed arms) are assumed.",
+         "Partial: the parse-error span lies on character boundaries inside the expression (fragment of <= 2 arbitrary characters), span union and un-rooting arithmetic stay inside the expression and delimit the right text, rule-error and capture spans are reported as stored; partition's pop_expression_bytes (hoisted from the function body) removes exactly the offset in BYTES (bounded: <= 4 bytes), and the REAL `expression:` arm of partition's result (hoisted as an expression on every run) shortens a borrowed and an owned expression by that same offset -- not by the token count that is also in scope (bounded: <= 4 bytes borrowed; one 4-byte expression owned). The REAL Glob::captures numbers exactly the capturing top-level tokens from 1 in expression order, each with the span stored for its own token (bounded: 3 leaf tokens). Token spans produced by pori and the rest of partition's body (offset sum, span rewrite closure) are assumed.",
          "pori::span (T4), the partition offset rewrite (a closure) and everything that builds spans from parser output assumed."),
  "C18": ("proof", "Kani harness-stated contracts over all of char against parser constants re-extracted each run + Verus verbatim predicates + Verus tokenisation lemma; escape bounded",
          "Meta-character set = parser stop set minus separator / backslash = escapable set, for every char, against constants re-read from the parser on every run; contextual set likewise; a Verus lemma shows escape-then-tokenise is the identity for any text without backslash; the structure of `escape` itself is only a bounded check (<= 2 ASCII characters).",
          "nom escaped_transform semantics (A18, T4); that the resulting glob matches only the text (C01) and reports invariant text (C11 upper part) not decided."),
  "C19": ("proof", "Kani harness-stated contracts on ownership conversions of leaves, the repetition-bound round trip and owned capture indexing",
-         "Thin: into_owned of leaves preserves kind / text / flag; the REAL Repetition::decompose followed by the REAL compose (the step fold_map performs at every repetition) restores the bounds exactly, complete over usize x Option<usize>; OwnedText::get indexing. The fold_map driver itself, regex Captures conversion, Display / FromStr routes are assumed.",
+         "Thin: into_owned of leaves preserves kind / text / flag; the REAL Repetition::decompose followed by the REAL compose (the step fold_map performs at every repetition) restores the bounds exactly, complete over usize x Option<usize>; OwnedText::get indexing; the REAL `expression:` arm of Tokenized::partition gives an owned expression (str::parse, into_owned) byte for byte the postfix it gives a borrowed one (bounded: one 4-byte expression, every offset). The fold_map driver itself, regex Captures conversion, Display / FromStr routes are assumed.",
          "fold_map driver (T3), From<&regex::Captures>, Display/FromStr/Pattern routes assumed; literal text bounded to 2 ASCII bytes."),
  "C20": ("proof", "Kani harness-stated contracts on the real FilterEntry / Not / transpose_filtrate over a mock input feeding Err items",
          "Partial: negations and entry filters pass Err items through unchanged (depth, kind), in place, without calling the filter and without cancelling; `filtrate` yields an Err like any other filtrate. WalkError::path() names the offending path (the link of a cycle, not its ancestor; the faulting path of an I/O error) and depth() the stored depth. Fault generation (walkdir / OS) and 'the remaining entries are those of a fault-free walk' are not decided.",
@@ -71,7 +71,7 @@ m = {
  "setup_cmd": "python3 tools/setup.py",
  "hooks": {
   "guard": "cfg(kani) / cfg(verif_replay): set only by cargo-kani and by the native replay build of a scratch copy; no hook is committed to /repo",
-  "enable": "python3 tools/check.py <id> copies /repo's working tree to a scratch directory, appends `#[cfg(any(kani, verif_replay))] #[path=...] pub(crate) mod verif_kani_<unit>;` lines (add-only, diff-checked each run) and runs `cargo kani` there; items nested in function bodies (rule::branch's tables, Token::has_root's Fold impl, partition's pop_expression_bytes) are copied verbatim from /repo into the harness module on every run (tools/vextract.py hoist-all); Verus obligations extract the named functions verbatim from /repo on every run",
+  "enable": "python3 tools/check.py <id> copies /repo's working tree to a scratch directory, appends `#[cfg(any(kani, verif_replay))] #[path=...] pub(crate) mod verif_kani_<unit>;` lines (add-only, diff-checked each run) and runs `cargo kani` there; items nested in function bodies (rule::branch's tables, Token::has_root's Fold impl, partition's pop_expression_bytes) and one block expression (the `expression:` arm of partition's result) are copied verbatim from /repo into the harness module on every run (tools/vextract.py hoist-all / hoist-expr); Verus obligations extract the named functions verbatim from /repo on every run",
   "baseline_off_cmd": "cd /repo && cargo test --workspace --no-fail-fast --offline",
   "source_commits": [],
   "add_only": True,
